@@ -382,7 +382,7 @@ func c15Eval(c *fw.Ctx, qs string, d c15Docs, docSel []int, kind string) {
 func init() {
 	fw.Register(&fw.Prop{
 		ID:       "C15",
-		CaseCPU:  20,
+		CaseCPU:  60,
 		Title:    "Queries never crash: parse and evaluate return a value or an error",
 		NeedsCLI: true,
 		Cases: func(tier string, seed uint64) int {
@@ -477,7 +477,11 @@ func c15CLI(c *fw.Ctx, qs string, d c15Docs, sel []int) {
 	}()
 	format := c15Formats[c.R.Intn(len(c15Formats))]
 	args = append(args, "-format", format, qs)
-	out, runErr := exec.Command(bin, args...).CombinedOutput()
+	outS, runErr, okRun := runCLI(c, "cli", map[string]interface{}{"args": args}, nil, 60, bin, args...)
+	if !okRun {
+		return
+	}
+	out := []byte(outS)
 	c.Count("cli-runs", 1)
 	s := string(out)
 	if CrashedGo(s, runErr) {
